@@ -58,7 +58,7 @@ prop(
 
 prop(
     "C03",
-    rules=["C03-R1", "C03-R7", "X-EXT@resolver", "X-EXT@view", "X-EXT@borrow", "C03-R3", "C03-R4", "C03-R5", "C14-R3"],
+    rules=["C03-R1", "C03-R7", "X-EXT@resolver", "X-EXT@view", "X-EXT@borrow", "C03-R3", "C03-R4", "C03-R5"],
     mir_rules=[S.rule_entity_resolver, S.rule_direct_resolver, S.rule_extent, E.rule_layout, E.rule_id_bits_inert, E.rule_version_opaque, E.rule_conversions],
     floors={"C03-R1": lambda c: 4 * n_storages(c), "C03-R7": lambda c: 2 * n_storages(c)},
     explanation="Static analysis. Decides: C03-R1/R7 every unchecked read whose index derives from a key is dominated by the exact bounds guard against the extent of the array it indexes "
@@ -101,7 +101,7 @@ prop(
 
 prop(
     "C04",
-    rules=["C04-R2", "C04-R3", "C04-R4", "C04-R5", "X-WMC", "C13-R2", "X-EXT@dropper"],
+    rules=["C04-R2", "C04-R3", "C04-R4", "C04-R5", "X-WMC", "X-EXT@dropper"],
     mir_rules=[S.rule_remover, S2.rule_dropper, S2.rule_push_guards, S2.rule_cloner, S2.rule_who_may, S.rule_extent],
     floors={"C04-R2": lambda c: n_storages(c), "C04-R3": lambda c: 5 * n_storages(c), "C04-R4": lambda c: 5 * n_storages(c), "C04-R5": lambda c: n_storages(c), "X-WMC": lambda c: 6 * n_storages(c)},
     explanation="Static analysis. Decides: X-WMC the ownership primitives (write, swap_remove, drop_to, dealloc, grow) are called only by the functions whose role owns them; "
